@@ -96,14 +96,43 @@ C06_Step(s, e) ==
                \* while paused or failed no further canary pod is created
                /\ (r2.conds.CanaryFailed.true \/ r2.conds.CanaryPaused.true) => PodCreates(e) = {}
 
+
+-----------------------------------------------------------------------------
+(* The ExtendedDaemonsetSetting reconcile (controllers/extendeddaemonsetsetting): transcription of Reconcile +          *)
+(* searchPossibleConflict.  Settings are sorted newest first, ties by the larger name; a setting is in conflict when a  *)
+(* setting sorted before it selects one of the nodes it selects.  A setting without reference stops before the search   *)
+(* (but still occupies nodes for the others); an unusable selector fails only its own reconcile.                        *)
+
+\* s.settings is sorted by namespace/name (projection), so "the larger name" is the larger index
+SetIdx(s, x) == CHOOSE i \in DOMAIN s.settings : s.settings[i] = x
+SetBefore(s, y, x) == y.born > x.born \/ (y.born = x.born /\ SetIdx(s, y) > SetIdx(s, x))
+
+SettingVerdict(s, x) ==
+    IF x.ref = "" THEN <<"error", "missing">>
+    ELSE IF x.sel = "" THEN <<"error", "conflict">>
+    ELSE IF \E n \in NodeNames(s) : \E y \in SeqToSet(s.settings) :
+              y # x /\ y.ns = x.ns /\ SetMatches(s, y, n) /\ SetMatches(s, x, n) /\ SetBefore(s, y, x)
+         THEN <<"error", "conflict">>
+    ELSE <<"valid", "">>
+
+IsSetting(s, e) == e.ev = "SettingReconcile" /\ \E x \in SeqToSet(s.settings) : x.ns \o "/" \o x.name = e.key
+
+Conf_Setting(s, e) ==
+    LET x == CHOOSE y \in SeqToSet(s.settings) : y.ns \o "/" \o y.name = e.key
+        v == SettingVerdict(s, x)
+        after == { y \in SeqToSet(e.state.settings) : y.ns = x.ns /\ y.name = x.name }
+    IN \A y \in after : y.status = v[1] /\ y.err = v[2]
+
 Conf_Step(s, e) ==
-    CASE IsERS(s, e) /\ EDSOf(s, RSOf(s, e.rs).owner).defaulted /\ GoodStrat(EDSOf(s, RSOf(s, e.rs).owner)) /\ ~e.res.panic
+    CASE IsSetting(s, e) /\ ~e.res.panic /\ ~e.res.err /\ (\A w \in Writes(e) : w.inj = "") -> Conf_Setting(s, e)
+      [] IsERS(s, e) /\ EDSOf(s, RSOf(s, e.rs).owner).defaulted /\ GoodStrat(EDSOf(s, RSOf(s, e.rs).owner)) /\ ~e.res.panic
               /\ (\A w \in Writes(e) : w.inj = "") -> Conf_ERS(s, e)
       [] IsEDS(s, e) /\ ~e.res.panic /\ (\A w \in Writes(e) : w.inj = "") /\ e.res.errKind \in {"", "nodes"} -> Conf_EDS(s, e)
       [] OTHER -> TRUE
 
 \* is the step one the conformance relation speaks about?
 Conf_Applies(s, e) ==
+    \/ (IsSetting(s, e) /\ ~e.res.panic /\ ~e.res.err /\ (\A w \in Writes(e) : w.inj = ""))
     \/ (IsERS(s, e) /\ EDSOf(s, RSOf(s, e.rs).owner).defaulted /\ GoodStrat(EDSOf(s, RSOf(s, e.rs).owner)) /\ ~e.res.panic /\ (\A w \in Writes(e) : w.inj = ""))
     \/ (IsEDS(s, e) /\ ~e.res.panic /\ (\A w \in Writes(e) : w.inj = "") /\ e.res.errKind \in {"", "nodes"})
 =============================================================================
